@@ -285,7 +285,8 @@ pub struct BinaryExpr {
 
 impl fmt::Display for BinaryExpr {
     fn fmt(&self, f: &mut fmt::Formatter) -> fmt::Result {
-        write!(f, "{}{}{}", self.left, self.operator, self.right)
+        // keep the grouping: the text is parsed again when it replaces a macro parameter
+        write!(f, "({}{}{})", self.left, self.operator, self.right)
     }
 }
 
